@@ -230,10 +230,14 @@ class Judge:
             self.obs[key] = max(self.obs.get(key, val), val)
 
     def compare(self, monitor, lib, ref, bound, what, mechanism, detail=None,
-                obs=None):
+                obs=None, attribute=None):
         """|lib-ref| <= bound ?  Returns True if it held.  `mechanism` is a
         string or a callable () -> (string, evidence dict) that is only
-        evaluated when the comparison fails (known-finding classifiers)."""
+        evaluated when the comparison fails (known-finding classifiers).
+        `attribute` () -> tag or None is evaluated for comparisons that HELD
+        with less than 10x headroom: it says whether that deviation is (a
+        small instance of) a known accuracy finding, so that the evidence can
+        state the headroom of everything else."""
         self.count(monitor)
         err = abs(complex(lib) - complex(ref))
         if self.dump is not None:
@@ -245,6 +249,13 @@ class Judge:
         if ratio <= 1.0:
             self.note("ratio:" + (obs or monitor), ratio)
             self.maxratio = max(self.maxratio, ratio)
+            if attribute is not None:
+                tag = attribute() if ratio > 0.1 else None
+                if tag is None:
+                    self.note("held_ratio_unattributed", ratio)
+                else:
+                    self.note("held_ratio_attributed:" + tag, ratio)
+                    self.count("held_attributed:" + tag)
             return True
         d = {"lib": complex(lib), "ref": complex(ref), "err": err,
              "bound": float(bound)}
@@ -500,6 +511,44 @@ class Classifier:
             return default, ev
         return run
 
+    def attribute_eta(self, lib, ref, terms, matsubara=False):
+        """For a comparison that held: is the (small) deviation an instance
+        of a known finding?  Criterion: the replica reproduces the library
+        and the repaired integrand / tail removes >= 90 % of the deviation."""
+        def run():
+            err = abs(lib - ref)
+            if not (self.thermal or self.soft) or err == 0:
+                return None
+            tw = self.tw
+            if not abs(lib - tw.combo(terms, "replica", matsubara)) \
+                    <= 1e-3 * err:
+                return None
+            if self.thermal and abs(tw.combo(terms, "stable", matsubara)
+                                    - ref) <= 0.1 * err:
+                return "subohmic-thermal-cancellation"
+            if self.soft and abs(tw.combo(terms, "finite", matsubara)
+                                 - ref) <= 0.1 * err:
+                return "inf-tail-quad-glitch"
+            return None
+        return run
+
+    def attribute_corr(self, lib, ref, tau):
+        def run():
+            err = abs(lib - ref)
+            if not (self.thermal or self.soft) or err == 0:
+                return None
+            tw = self.tw
+            if not abs(lib - tw.correlation(tau, "replica")) <= 1e-3 * err:
+                return None
+            if self.thermal and abs(tw.correlation(tau, "stable") - ref) \
+                    <= 0.1 * err:
+                return "subohmic-thermal-cancellation"
+            if self.soft and abs(tw.correlation(tau, "finite") - ref) \
+                    <= 0.1 * err:
+                return "inf-tail-quad-glitch"
+            return None
+        return run
+
     def correlation(self, lib, ref, tau, bound, default):
         """Mechanism for a deviating real-time correlation() value."""
         def run():
@@ -685,7 +734,9 @@ def run_sd(case):
             cell_mech[0] = m
             return m, ev
         J.compare("cells_vs_eta", lib, ref, bound, what, mech_rec, detail,
-                  obs="cells_vs_eta:tri-offset" if offset_tri else None)
+                  obs="cells_vs_eta:tri-offset" if offset_tri else None,
+                  attribute=None if offset_tri
+                  else cl.attribute_eta(lib, ref, terms))
         # own-correlation oracle on a rotating subset (cost: ~50-200
         # correlation() evaluations each)
         span = ((t2 if t2 is not None else t1 + dt) - (t1 - dt)) * wc
@@ -774,12 +825,14 @@ def run_sd(case):
               f"sum of the cells of the first {n} steps minus library "
               f"triangle with delta = {n} dt",
               cl.eta_combo(total - big, 0.0, diff_terms, b_t, "tiling"),
-              det, obs="tiling:lib")
+              det, obs="tiling:lib",
+              attribute=cl.attribute_eta(total - big, 0.0, diff_terms))
     J.compare("tiling", total, eta_ref(n * dt), b_t,
               f"sum of the cells of the first {n} steps vs independent "
               f"eta({n} dt)",
               cl.eta_combo(total, eta_ref(n * dt), terms_total, b_t,
-                           "tiling"), det, obs="tiling:ref")
+                           "tiling"), det, obs="tiling:ref",
+              attribute=cl.attribute_eta(total, eta_ref(n * dt), terms_total))
     if abs(eta_ref(n * dt)) >= 100 * b_t:
         J.sensitive += 1
     # a rectangle = the squares it covers
@@ -818,7 +871,7 @@ def run_sd(case):
         J.compare("corr_vs_ref", cp, cref, b_c,
                   f"correlation({tau:.4g}) vs independent quadrature",
                   cl.correlation(cp, cref, tau, b_c, "correlation-deviation"),
-                  det)
+                  det, attribute=cl.attribute_corr(cp, cref, tau))
         J.compare("corr_vs_ref", cm, np.conj(cref), b_c,
                   f"correlation({-tau:.4g}) vs independent quadrature",
                   cl.correlation(cm, np.conj(cref), -tau, b_c,
@@ -855,7 +908,9 @@ def run_sd(case):
     J.note("integration_warnings", nwarn)
     J.count("lib_integration_warnings", nwarn)
     if not cl.subohmic_thermal:
-        # headroom figure outside the regime of the known cancellation finding
+        # worst ratio outside the regime in which the cancellation finding
+        # bites (see also held_ratio_unattributed: comparisons that held and
+        # are not small instances of a known finding)
         J.note("worst_ratio_outside_subohmic_thermal", J.maxratio)
     sig = (variant, p["cutoff_type"], tclass, zclass, eps is None,
            tuple(sorted(set(cell_sig))))
@@ -970,7 +1025,8 @@ def _matsubara(J, rng, obj, p, pref, epskw, eps_eff, nq, cells_cov, quick, i,
             J.sensitive += 1
         J.compare("matsubara_cells", lib, ref, bound,
                   f"Matsubara {shape} cell k={k} of {nst} vs independent "
-                  "imaginary-time eta", mech, det)
+                  "imaginary-time eta", mech, det,
+                  attribute=cl.attribute_eta(lib, ref, lib_terms, True))
         # own consistency: cell = - int w(s) C_M(s) ds
         if k == ks[(i // 2) % len(ks)] and dtm * p["cutoff"] <= 6.0:
             def cmown(s):
